@@ -520,6 +520,14 @@ func runRelay(c *Ctx) error {
 		}
 		o := relayRun(sh, cache, nil)
 		if !o.hsOK || !o.appOK {
+			// an honest run is judged after it failed twice (the FS shape has its directory in the shared
+			// /tmp for the duration of the exchange; the bound is generous but it is a bound)
+			c.Count("honest-run-repeated:" + sh.name)
+			if prep() {
+				o = relayRun(sh, cache, nil)
+			}
+		}
+		if !o.hsOK || !o.appOK {
 			c.Violate(Violation{Property: "C04", Key: "C04:honest-relay-failed:" + sh.name, What: "an unmodified handshake through the relay failed", Ops: []string{"shape " + sh.name}, Expected: "success", Observed: fmt.Sprintf("hs=%v app=%v", o.hsOK, o.appOK)})
 			continue
 		}
